@@ -109,4 +109,55 @@ def isMixBlock : Block → Bool
 /-- a document made of such blocks (all at top level); contains `SpanDoc` and `EmDoc` -/
 def MixDoc (d : Doc) : Bool := d.all isMixBlock
 
+/-! ### rung C grown further: emphasis around words, escapes and code spans -/
+
+/-- words, a backslash escape, a code span without `<`, or `em` / `strong` around such items (one level) -/
+def isDeepItem : Inline → Bool
+  | .text _ => true
+  | .esc _ => true
+  | .code b => noLt b
+  | .em c => c.all isSpanItem && noBsBeforeCode c
+  | .strong c => c.all isSpanItem && noBsBeforeCode c
+  | _ => false
+
+def deepRun (c : List Inline) : Bool := c.all isDeepItem && noBsBeforeCode c
+
+def isDeepBlock : Block → Bool
+  | .rule => true
+  | .code ls => ls.all noLt
+  | .para c => deepRun c
+  | .atx _ c => deepRun c
+  | .setext _ c => deepRun c
+  | _ => false
+
+/-- a document of rules, code blocks, and paragraphs / headings of words, escapes, code spans and one level of
+    emphasis around words, escapes and code spans; contains `MixDoc` -/
+def DeepDoc (d : Doc) : Bool := d.all isDeepBlock
+
+/-! ### rung C grown again: emphasis inside emphasis -/
+
+/-- words, a backslash escape, a code span without `<`, or `em` / `strong` around items of `isDeepItem` (so: two levels
+    of emphasis, which is all that well-formedness allows) -/
+def isDeep2Item : Inline → Bool
+  | .text _ => true
+  | .esc _ => true
+  | .code b => noLt b
+  | .em c => c.all isDeepItem && noBsBeforeCode c
+  | .strong c => c.all isDeepItem && noBsBeforeCode c
+  | _ => false
+
+def deep2Run (c : List Inline) : Bool := c.all isDeep2Item && noBsBeforeCode c
+
+def isDeep2Block : Block → Bool
+  | .rule => true
+  | .code ls => ls.all noLt
+  | .para c => deep2Run c
+  | .atx _ c => deep2Run c
+  | .setext _ c => deep2Run c
+  | _ => false
+
+/-- a document of rules, code blocks, and paragraphs / headings of words, escapes, code spans and emphasis (two levels:
+    `em` in `strong`, `strong` in `em`) around words, escapes and code spans; contains `DeepDoc` -/
+def Deep2Doc (d : Doc) : Bool := d.all isDeep2Block
+
 end MdVerif.DocSpec
